@@ -241,6 +241,7 @@ func c03Run(t *testing.T, c c03Case, rec *vfkit.Recorder) (info c03Info, err err
 		return info, nil
 	}
 	defer os.RemoveAll(dir)
+	dir = frModelsDir(dir)
 	os.Setenv("OLLAMA_MODELS", dir)
 	os.Unsetenv("OLLAMA_NOPRUNE")
 	name := c03Names[c.Name%len(c03Names)]
